@@ -5,8 +5,11 @@
 (* Part 1 (C17): the authentication decision.  A configuration is          *)
 (*   [cert, eku, tlsauth, plugins, req]                                    *)
 (*   cert    : "absent" | "cn0" | "cn1" | "cn2"  (number of common names)  *)
-(*   eku     : "absent" | "other" | "lookalike" | "client"  (extended key  *)
-(*             usage; lookalike = OIDs that textually contain clientAuth)  *)
+(*   eku     : "absent" | "other" | "lookalike" | "any" | "client"  (the   *)
+(*             extended key usage extension; lookalike = OIDs that         *)
+(*             textually contain clientAuth; any = anyExtendedKeyUsage     *)
+(*             (2.5.29.37.0) with other purposes but without clientAuth:   *)
+(*             the property asks for the client-authentication usage)      *)
 (*   tlsauth : enable_tls_client_auth                                      *)
 (*   plugins : sequence of plugin kinds, in configuration order            *)
 (*   req     : "valid" | "undecodable"                                     *)
